@@ -47,7 +47,8 @@ def run(tier):
               "around every multiple of 255 (thorough: every length 0..1100) with and without final newline under several "
               "chunkings; exact-size families with short first reads and early end; load_file(save_file) at block "
               "boundaries incl. shorter-over-longer; directory trees (incl. every 1..3-character name over {., a, -}); every path up to 5-7 symbols over {a,/,.}; random "
-              "scoped_fd and Poll histories; distinct = (operation, plan-length class, outcome) classes")
+              "scoped_fd (incl. open() on live objects) and Poll histories; injected read errors of rotating errno kinds on "
+              "descriptors and FILE* streams; trees with FIFOs, sockets and symbolic links (a link to a sibling directory with a sentinel); distinct = (operation, plan-length class, outcome) classes")
     c.assumptions = ["large results are compared with the source by memcmp in the harness (length and equality are logged)",
                      "closes of tracked descriptors are recorded by the interposed close() instead of being performed"]
     return c.finish()
